@@ -19,7 +19,7 @@ func init() {
 	Register(&Check{
 		ID:          "C13",
 		Technique:   "complete enumeration of (Host, Origin) pairs assembled from scheme x userinfo x host edits x port x suffix against the real Upgrader with no CheckOrigin; oracle = RFC 3986 appendix-B authority extraction + A-Z folding",
-		Rule:        "cases = {8 Host values} x {7 scheme spellings} x {5 userinfo forms} x {all one-character substitutions/insertions/deletions of the host over a small alphabet, case variants, added/removed labels, prefix/suffix look-alikes, U+212A/U+017F/U+0131/full-width look-alikes, percent-escaped spellings, other IP literals} x {8 port forms incl. the default ports 80/443} x {6 suffixes} + junk origins; complete product (free dimensions). non-trivial = Origin present and differs from the plain same-origin form; distinct by observation hash",
+		Rule:        "cases = {8 Host values} x {9 scheme spellings} x {5 userinfo forms} x {all one-character substitutions/insertions/deletions of the host over a small alphabet, case variants, added/removed labels, prefix/suffix look-alikes, U+212A/U+017F/U+0131/full-width look-alikes, percent-escaped spellings, other IP literals} x {8 port forms incl. the default ports 80/443} x {9 suffixes incl. the Host placed after a scheme-looking prefix at the tail} + junk origins; complete product (free dimensions). non-trivial = Origin present and differs from the plain same-origin form; distinct by observation hash",
 		Assumptions: []string{"several Origin header lines are a don't-care", "Host values are ASCII (what net/http admits)"},
 		Budget:      map[string]time.Duration{"quick": 100 * time.Second, "thorough": 15 * time.Minute},
 		Bound:       map[string]string{"quick": "complete product with edits at every position over alphabet {a,.,-,:,@,/,%}", "thorough": "same with a larger edit alphabet (adds 0,Z,[,],\\,?,#,space)"},
@@ -91,10 +91,11 @@ func hostEdits(host string, alphabet string) []string {
 	return out
 }
 
-var c13Schemes = []string{"http://", "https://", "ws://", "HTTP://", "//", "", "junk:"}
+var c13Schemes = []string{"http://", "https://", "ws://", "HTTP://", "//", "", "junk:", "1http://", "x://"}
 var c13User = []string{"", "user@", "%s@", "user:%s@", "%s:pw@"}
-var c13Suffix = []string{"", "/", "/%s", "?%s", "#%s", "/@%s"}
-var c13Junk = []string{"null", "", "//", "://", "http://", "http:", "http:///", "\x00", "\xff\xfe", "http://[", "http://]", "about:blank", "file:///etc/passwd", "http://%zz", " http://%s", "http://%s ", "\thttp://%s"}
+var c13Suffix = []string{"", "/", "/%s", "?%s", "#%s", "/@%s", "/http://%s", "?next=https://%s", "#://%s"}
+var c13Junk = []string{"null", "", "//", "://", "http://", "http:", "http:///", "\x00", "\xff\xfe", "http://[", "http://]", "about:blank", "file:///etc/passwd", "http://%zz", " http://%s", "http://%s ", "\thttp://%s",
+	"http://evil.example\\@%s", "http://evil.example\\.%s", "http:%s", "http:/%s", "http:\\\\%s", "%s", "//%s@evil.example", "http://%s\\@evil.example", "http://evil.example#@%s", "http://evil.example?@%s", "javascript://%s/%%0aalert(1)"}
 
 func c13Scenarios(tier string) []*explore.Scenario {
 	var scs []*explore.Scenario
